@@ -574,6 +574,9 @@ def check(pid, tier, only=None):
     t0 = time.time()
     cfg = PROPS[pid]
     seed = int(os.environ.get("VERIF_SEED", "1") or "1")
+    # per-case watchdog of the driver (harness/drivers/common.hpp): quick cases take < 10 s, the longest thorough cases
+    # (1e5-step chains under ASan) about two minutes on a loaded machine
+    os.environ.setdefault("VF_CASE_TIMEOUT", str(cfg.get("case_timeout", 150 if tier == "quick" else 1200)))
     binp = build([pid])[pid]
     rundir = os.path.join(BUILD, "run-%s-%d" % (pid, os.getpid()))
     shutil.rmtree(rundir, ignore_errors=True)
@@ -658,10 +661,11 @@ def check(pid, tier, only=None):
             else:
                 cr = os.path.join(rundir, "crumb_%s.bin" % tag)
                 outp = os.path.join(rundir, "abort_%s.json" % tag)
-                r = crumb_to_replay(cr, outp, pid, "abort") if os.path.exists(cr) else None
+                hung = rc == 142 or "CASE-TIMEOUT" in (err or "")
+                r = crumb_to_replay(cr, outp, pid, "hang" if hung else "abort") if os.path.exists(cr) else None
                 if r:
                     open(outp + ".stderr", "w").write(err[-8000:])
-                    cands.append((r[0], outp))
+                    cands.append((r[0] + (" [does not return]" if hung else ""), outp))
                 else:
                     notes.append("process %s died (rc=%s) without breadcrumb: %s" % (tag, rc, err[-500:]))
 
@@ -685,10 +689,15 @@ def check(pid, tier, only=None):
     os.makedirs(outdir, exist_ok=True)
     seen = set()
     flaky = []
-    hang_to = cfg.get("hang_replay_timeout", 120 if tier == "quick" else 600)
+    hang_to = int(os.environ["VF_CASE_TIMEOUT"]) + 60
+    hung_seen = set()
     for name, path in cands:
         is_hang = name.endswith("[does not return]")
-        st = confirm(binp, path, 3, hang_to if is_hang else 300)
+        if is_hang:
+            if name in hung_seen:  # one confirmation per check: each replay costs the full case timeout
+                continue
+            hung_seen.add(name)
+        st = confirm(binp, path, 2 if is_hang else 3, hang_to if is_hang else 300)
         if st == "abort" and not is_hang:
             minimise_abort(binp, path)
             st = confirm(binp, path)
@@ -792,7 +801,8 @@ def main():
         if hook and d.get("kind") in PROPS[pid].get("replay_kinds", []):
             return hook(sys.modules[__name__], path)
         binp = build([pid])[pid]
-        st, out = replay_once(binp, path)
+        os.environ.setdefault("VF_CASE_TIMEOUT", str(PROPS[pid].get("case_timeout", 1200)))
+        st, out = replay_once(binp, path, None, int(os.environ["VF_CASE_TIMEOUT"]) + 60)
         print(out)
         if st in ("fail", "abort"):
             print("VIOLATION property=%s replay=%s" % (pid, sys.argv[2]))
